@@ -12,7 +12,8 @@
 From Coq Require Import String Ascii.
 From Coq Require Import List ZArith Bool.
 From TskVerif Require Import Base.Common Gen.Generated C17.Model C17.B64Proofs C17.TsvProofs
-  C17.OrderProofs C17.RoundtripProofs C17.DecProofs C17.ExtraProofs C17.WsProofs.
+  C17.OrderProofs C17.RoundtripProofs C17.DecProofs C17.ExtraProofs C17.WsProofs C17.LoadTextProofs.
+From Coq Require Import Permutation Sorting.Sorted.
 Import ListNotations.
 Open Scope Z_scope.
 
@@ -224,3 +225,59 @@ Proof. exact backfill_spec. Qed.
    their TABs and newline (the metadata read back is the repr itself: pinned, not a round trip). *)
 Theorem repr_metadata_printable : forall l, Forall is_byte l -> Forall printable (bytes_repr l).
 Proof. exact bytes_repr_printable. Qed.
+
+(* ---- final extension round ---- *)
+
+(* load_text o dump_text END TO END (C17/Model.v load_text_model: the seven parsers in the
+   order of the code, the population file, the final tc.sort()).  The sorter is a parameter
+   constrained by what tsk_table_sorter_run guarantees (property C07): nodes / individuals /
+   populations untouched, edges and migrations permuted, sites permuted without inversion of
+   the site key, an ordered mutation table a fixed point once the sites stay in place.  For
+   tables whose sites and mutations satisfy the ordering requirements (every valid tree
+   sequence): every table comes back, edges and migrations as the same multiset. *)
+Theorem load_dump_text_end_to_end :
+  forall F print_int parse_int print_fix print_repr parse_float,
+  codecs_ok F print_int parse_int print_fix print_repr parse_float ->
+  forall (sort : tables F -> tables F)
+         (site_lt : site_row F -> site_row F -> Prop) (mutation_lt : mutation_row F -> mutation_row F -> Prop),
+  (forall t, t_nodes (sort t) = t_nodes t /\ t_individuals (sort t) = t_individuals t
+             /\ t_populations (sort t) = t_populations t) ->
+  (forall t, Permutation (t_edges t) (t_edges (sort t))) ->
+  (forall t, Permutation (t_migrations t) (t_migrations (sort t))) ->
+  (forall t, Permutation (t_sites t) (t_sites (sort t)) /\ no_inversion site_lt (t_sites (sort t))) ->
+  (forall t, t_sites (sort t) = t_sites t -> StronglySorted mutation_lt (t_mutations t) ->
+             t_mutations (sort t) = t_mutations t) ->
+  forall t edge_md,
+  tables_ok F print_fix parse_float t edge_md ->
+  StronglySorted site_lt (t_sites t) -> StronglySorted mutation_lt (t_mutations t) ->
+  exists t',
+    load_text_model F parse_int parse_float sort (dump_all F print_int print_fix print_repr t edge_md) = Ok t'
+    /\ t_nodes t' = t_nodes t /\ t_sites t' = t_sites t /\ t_mutations t' = t_mutations t
+    /\ t_individuals t' = t_individuals t /\ t_populations t' = t_populations t
+    /\ Permutation (t_edges t) (t_edges t') /\ Permutation (t_migrations t) (t_migrations t').
+Proof. exact LoadTextProofs.load_dump_text_end_to_end. Qed.
+
+(* why "permuted without inversion" is enough: a comparison sort returns its input when that is
+   already strictly ordered, whatever it does with ties elsewhere *)
+Theorem sort_identity_on_strictly_sorted : forall (A : Type) (lt : A -> A -> Prop) (l s : list A),
+  StronglySorted lt l -> no_inversion lt s -> Permutation l s -> s = l.
+Proof. intros A. exact (@sorted_permutation_unique A). Qed.
+
+(* wrapper level (regenerated from the signatures and call sites): TreeSequence.dump_text
+   forwards every parameter to text_formats.dump_text under its own name; load_text hands
+   strict / encoding / base64_metadata to every parser and lets each fill its own table *)
+Theorem dump_text_forwards_every_keyword :
+  c17_dump_text_keywords = map (fun p => (p ++ "=" ++ p)%string) c17_dump_text_params
+  /\ c17_dump_text_params = c17_text_formats_dump_text_params.
+Proof. exact ExtraProofs.dump_text_forwards_every_keyword. Qed.
+
+Theorem load_text_forwards_to_every_parser :
+  c17_load_text_parse_calls =
+    ["edges:strict=strict";
+     "individuals:strict=strict,encoding=encoding,base64_metadata=base64_metadata,table=tc.individuals";
+     "migrations:strict=strict,encoding=encoding,base64_metadata=base64_metadata,table=tc.migrations";
+     "mutations:strict=strict,encoding=encoding,base64_metadata=base64_metadata,table=tc.mutations";
+     "nodes:strict=strict,encoding=encoding,base64_metadata=base64_metadata,table=tc.nodes";
+     "populations:strict=strict,encoding=encoding,base64_metadata=base64_metadata,table=tc.populations";
+     "sites:strict=strict,encoding=encoding,base64_metadata=base64_metadata,table=tc.sites"]%string.
+Proof. exact load_text_forwards. Qed.
